@@ -473,6 +473,25 @@ pub fn scenarios(include_heavy: bool) -> Vec<Scenario> {
             }) });
         }
     }
+    // ---- metadata that starts with a UTF-8 byte order mark: accepted or refused, but alike under every fragmentation
+    for c in [Compression::None, Compression::GZip] {
+        let code = crate::common::comp_code(c);
+        let name = cname(c);
+        use crate::spec::archive::{encode_foreign, Layout, Node};
+        let f = encode_foreign(&[Node::Tile(SEntry::new(0, 0, 2, 1))], b"AA", Some(b"\xEF\xBB\xBF{\"a\":1}"), code, &Layout::default(), crate::spec::header::SHeader { tile_type: 2, tile_compression: 1, ..Default::default() });
+        let bb = f.bytes.clone();
+        v.push(Scenario { name: format!("archive-open/padded-bom-meta/{name}/sync"), is_async: false, role: Role::Reader, heavy: false, faults: false, run: Box::new(move |ch| {
+            let h = Handle::new(bb.clone(), ch);
+            let r = catch(|| PMTiles::from_reader(h.sync()).map(|mut pm| view_sync(&mut pm, &[0])));
+            finish(h, r, |x| format!("{x:?}"))
+        }) });
+        let bb = f.bytes.clone();
+        v.push(Scenario { name: format!("archive-open/padded-bom-meta/{name}/async"), is_async: true, role: Role::Reader, heavy: false, faults: false, run: Box::new(move |ch| {
+            let h = Handle::new(bb.clone(), ch);
+            let r = catch(|| block_on(PMTiles::from_async_reader(h.asyn())).map(|mut pm| view_async(&mut pm, &[0])));
+            finish(h, r, |x| format!("{x:?}"))
+        }) });
+    }
     // ---- sizes above the buffer thresholds on the I/O paths (4 KiB codec buffers, 8 KiB BufReader, 64 KiB)
     for c in [Compression::None, Compression::GZip] {
         let name = cname(c);
